@@ -14,7 +14,7 @@ import (
 func init() {
 	register("C08", &propDef{
 		Title: "A finished bundle contains everything that was added or discovered",
-		Rules: []func(*Checker){ruleC08NoDrop, ruleC08Drain, ruleC08Callbacks, ruleC08Manifest, ruleC08SameJoin, ruleC08Lookup, ruleC08Meta, ruleCopiedWhenEmpty("C08.metacopy"), ruleGuardOwnField("C08.metaguard"), ruleArgOrder("C08.argorder"), ruleTracerNonNil("C08.tracer"), ruleNameAgreement("C08.names", "sourcebundle"), ruleC08DirName, ruleRecordComplete("C08.complete"), ruleLiteralAgreement("C08.fields", "sourcebundle", nil), ruleMapFieldsMade("C08.mapinit"), ruleCtorParamsUsed("C08.ctorparams"), ruleFetchMemoOnly("C08.fetchmemo"), ruleSameKeyForm("C08.keyform"), ruleExhaustiveTypeSwitch("C08.exhaustive"), ruleLoopVarAddrKept("C08.loopvar", "/sourcebundle"), ruleDeprecationKeptWhole("C08.notekept"), aliasRule(ruleC11JoinOrder, "C11.joinorder", "C08.finaladdr", 3)},
+		Rules: []func(*Checker){ruleC08NoDrop, ruleC08Drain, ruleC08Callbacks, ruleC08Manifest, ruleC08SameJoin, ruleC08Lookup, ruleC08Meta, ruleCopiedWhenEmpty("C08.metacopy"), ruleGuardOwnField("C08.metaguard"), ruleArgOrder("C08.argorder"), ruleTracerNonNil("C08.tracer"), ruleNameAgreement("C08.names", "sourcebundle"), ruleC08DirName, ruleRecordComplete("C08.complete"), ruleLiteralAgreement("C08.fields", "sourcebundle", nil), ruleMapFieldsMade("C08.mapinit"), ruleCtorParamsUsed("C08.ctorparams"), ruleFetchMemoOnly("C08.fetchmemo"), ruleSameKeyForm("C08.keyform"), ruleExhaustiveTypeSwitch("C08.exhaustive"), ruleLoopVarAddrKept("C08.loopvar", "/sourcebundle"), aliasRuleFiltered(ruleC13Names, "C13.names", "C08.contenthash", 1, func(o Oblig) bool { return strings.Contains(o.Key, "directory name is a content hash") }), ruleDeprecationKeptWhole("C08.notekept"), aliasRule(ruleC11JoinOrder, "C11.joinorder", "C08.finaladdr", 3)},
 		NotDecided: []string{
 			"transitive closure over arbitrary dependency graphs and the content of fetched files (run-time facts)",
 			"that looked-up paths exist on disk",
@@ -37,7 +37,7 @@ func init() {
 	register("C10", &propDef{
 		Title: "Bundle package directories are sanitised",
 		Rules: []func(*Checker){ruleC10Walked, ruleC10Exits, ruleC10Links, aliasRuleFiltered(ruleC13Names, "C13.names", "C10.hash", 1, func(o Oblig) bool { return strings.Contains(o.Key, "directory name is a content hash") }), ruleC10Tmp, ruleC10Inside, ruleC03PruneAs("C10.ignored"), ruleC03BundleAs("C10.removed"), ruleBuilderAbsDir("C10.absdir"), ruleBundleWalkChain("C10.chain"),
-			aliasRule(ruleC03Parse, "C03.parse", "C10.parse", 3), aliasRule(ruleC03LastWins, "C03.lastwins", "C10.lastwins", 1), aliasRule(ruleC03Glob, "C03.glob", "C10.glob", 3), aliasRule(ruleC03MatchErr, "C03.matcherr", "C10.matcherr", 1)},
+			aliasRule(ruleC03Parse, "C03.parse", "C10.parse", 3), aliasRule(ruleC03LastWins, "C03.lastwins", "C10.lastwins", 1), aliasRule(ruleC03Glob, "C03.glob", "C10.glob", 3), aliasRule(ruleC03MatchErr, "C03.matcherr", "C10.matcherr", 1), ruleMatchByRegexpOnly("C10.byregexp")},
 		NotDecided: []string{
 			"what filepath.EvalSymlinks resolves to; races with other processes modifying the temporary directory",
 			"what the fetcher itself writes",
@@ -1305,6 +1305,47 @@ func ruleC17Dep(c *Checker) {
 					continue
 				}
 				ranged++
+				// a cached copy is the registry's answer only where the table had the package: the value of a
+				// comma-ok lookup that missed is an empty list
+				var viaPhi func(v ssa.Value, at, to *ssa.BasicBlock, d int)
+				viaPhi = func(v ssa.Value, at, to *ssa.BasicBlock, d int) {
+					if d > 6 || v == nil {
+						return
+					}
+					switch x := v.(type) {
+					case *ssa.Phi:
+						for i, e := range x.Edges {
+							if e != v {
+								viaPhi(e, x.Block().Preds[i], x.Block(), d+1)
+							}
+						}
+					case *ssa.Extract:
+						if lk, ok := x.Tuple.(*ssa.Lookup); ok && lk.CommaOk && x.Index == 0 {
+							var okv ssa.Value
+							if refs := lk.Referrers(); refs != nil {
+								for _, r := range *refs {
+									if ex, ok := r.(*ssa.Extract); ok && ex.Index == 1 {
+										okv = ex
+									}
+								}
+							}
+							if okv != nil && at != nil {
+								tE, _ := boolEdges(member, okv)
+								onEdge := false
+								for _, e := range tE {
+									// the incoming edge itself may be the ok edge
+									if e.From == at && to != nil && e.To() == to {
+										onEdge = true
+									}
+								}
+								if !guarded(at, tE) && !onEdge {
+									rangedOK = false
+								}
+							}
+						}
+					}
+				}
+				viaPhi(canon(ia.X), nil, nil, 0)
 				for _, l := range p.origins(ia.X, 2) {
 					switch {
 					case l.Kind == "lookup" && builderMapOf(l.Base) == "registryPackageVersions":
